@@ -54,6 +54,7 @@ def run(fb, rep, tier):
     # generator/region typestate of C12.1 is the same obligation seen from the table's side
     from . import C12
     C12.c1_typestate(fb, rep, clause='C08.7')
+    c8_replace_decisions(fb, rep)
 
 
 # ----------------------------------------------------------------------------- .1
@@ -751,3 +752,58 @@ def _getindex_structure(gi):
     out['ok'] = all((ok0, ok1, ok2, ok3, ok4))
     out['why'] = 'key>>48=%s *=topBits=%s >>=16=%s <<=shift=%s |=key&mask=%s' % (ok0, ok1, ok2, ok3, ok4)
     return out
+
+
+# ----------------------------------------------------------------------------- .8
+
+def c8_replace_decisions(fb, rep):
+    """K2 order: insert() assembles the new record in a local copy of the slot it replaces.  Every decision that asks
+    "is this still the same position?" compares the copy's key with the new key, and must be taken before the copy's
+    key is overwritten with the new key - afterwards the comparison is constantly "same", and e.g. the move of an
+    evicted *different* position is kept for the new key: a probe returns a record blended from two positions."""
+    clause = 'C08.8'
+    f = fb.find1(TT + '::insert')
+    if rep.need(clause, f, TT + '::insert') is None:
+        return
+    ENT = TT + '::TTEntry'
+    sets = [(b, i, e) for b, i, e in f.events() if e.get('k') == 'call' and cname(e) == ENT + '::setKey' and isinstance(_strip(e.get('recv')), dict) and _strip(e['recv']).get('k') == 'var']
+    rep.floor(clause, 'key overwrites of the local entry copy in insert', len(sets), 1)
+    n_cmp = 0
+    for sb, si, se in sets:
+        ent_id = _strip(se['recv'])['id']
+        key = _strip((se.get('args') or [None])[0])
+        key_id = key.get('id') if isinstance(key, dict) and key.get('k') == 'var' else None
+
+        def is_cmp(t):
+            for n in walk(t):
+                if n.get('k') == 'bin' and n.get('op') in ('==', '!='):
+                    sides = [_strip(n.get('l')), _strip(n.get('r'))]
+                    g = [x for x in sides if isinstance(x, dict) and x.get('k') == 'call' and cname(x) == ENT + '::getKey' and (_strip(x.get('recv')) or {}).get('id') == ent_id]
+                    k_ = [x for x in sides if isinstance(x, dict) and x.get('k') == 'var' and x.get('id') == key_id]
+                    if g and k_:
+                        return True
+            return False
+        late = []
+        # blocks reachable after the overwrite
+        seen = set()
+        st = [(sb, si + 1)]
+        while st:
+            b, i0 = st.pop()
+            blk = f.blocks[b]
+            for i in range(i0, len(blk['ev'])):
+                if is_cmp(blk['ev'][i]):
+                    late.append((b, blk['ev'][i]))
+            c = (blk.get('term') or {}).get('cond')
+            if c is not None and is_cmp(eff_cond(blk['term'])):
+                late.append((b, blk['term']))
+            for s_ in blk['succ']:
+                if s_ in f.blocks and s_ not in seen:
+                    seen.add(s_)
+                    st.append((s_, 0))
+        for bid, blk in f.blocks.items():
+            c = (blk.get('term') or {}).get('cond')
+            if c is not None and bid not in f.dead and is_cmp(eff_cond(blk['term'])):
+                n_cmp += 1
+        rep.ob(clause, 'K2 must-precede', 'insert: every comparison of the replaced entry\'s key with the new key is made before that key is overwritten', not late,
+               R.site(f, se), 'comparisons reachable after setKey: %d (lines %s)' % (len(late), sorted({x[1].get('ln') for x in late if isinstance(x[1], dict)})), f.sname)
+    rep.floor(clause, 'same-position tests on the local entry copy in insert', n_cmp, 2)
